@@ -18,14 +18,16 @@ META = dict(
     level_note='Trusted: Coq kernel; the MPFR model (mpfr_div at bits(n)+bits(d)+768 bits RNDN then %.*RNf half-even) is modelled, validated by the correspondence on ties; extraction/driver/python harness for the correspondence. The print->parse round trip is proved for plain decimal texts (digits and point); thousands marks, decimal comma, quoted symbols and symbol placement are covered by the correspondence and the re-read oracle only (stated as partial). Lot annotations are not modelled here.',
     design_ref='DESIGN.md section 7 C04, sections 6.3-6.4',
     assumptions=['commodity symbols avoid s/m/h (predefined time units) and reserved words',
-                 'no commodity format directives in the generated journals'],
+                 'no commodity format directives in the generated journals',
+                 'no backslash in commodity symbols (the stream reader takes it as an escape, the in-memory one does not)'],
 )
 
 SYMBOLS = ['$', 'EUR', 'AAA', '€', '₹', 'Ünit', 'M&M 2', 'K-9', 'x y', 'GBP', 'BTC', 'q1', '£', 'A1']
 
 
 def needs_quote(sym):
-    return any(ch in ' \t\n\r0123456789.,;:?!-+*/^&|=<>{}[]()@' or ch == '"' for ch in sym)
+    """must this symbol be written in quotes for the reader to take it whole?  (every character the reader stops at)"""
+    return any(ch in ' \t\n\r0123456789.,;:?!-+*/^&|=<>{}[]()@~\x7f' or ch == '"' for ch in sym)
 
 
 class Written:
@@ -97,6 +99,22 @@ def gen_journal(rng, n):
     return out
 
 
+def gen_symbol_sweep(rng):
+    """one commodity per ASCII character: Q<c>Z, always written in quotes (which the reader accepts for any symbol); what
+    ledger prints for it must be read back as the same commodity - with quotes wherever the reader would stop at <c>"""
+    out = []
+    chars = [chr(c) for c in range(0x21, 0x80) if chr(c) not in '"\\|']       # a backslash is an escape to the reader (see assumptions); | separates the harness's fields
+    rng.shuffle(chars)
+    for ch in chars:
+        w = Written(rng, 'A', rng.choice(['pre', 'suf']), rng.random() < 0.5, False, False, 2)
+        sym = 'Q%sZ' % ch
+        w.text = w.text.replace('A', '"%s"' % sym)
+        w.sym = sym
+        w.dcomma = False
+        out.append(w)
+    return out
+
+
 def render(ws):
     lines = []
     for i, w in enumerate(ws):
@@ -159,7 +177,7 @@ def run(ctx, n_override=None):
     njournals = n_override or ctx.scale(120, 500)
     model_lines, journals = [], []
     for j in range(njournals):
-        ws = gen_journal(rng, rng.randrange(20, 60))
+        ws = gen_symbol_sweep(rng) if j % 40 == 7 else gen_journal(rng, rng.randrange(20, 60))
         journals.append(ws)
         model_lines.append(lib.sx(['journal', 'j%d' % j] + [w.text.encode('utf-8') for w in ws]))
     mout = []
